@@ -10,9 +10,17 @@ import (
 	"bufio"
 	"bytes"
 	"context"
+	"crypto/ecdsa"
+	"crypto/elliptic"
+	"crypto/rand"
+	"crypto/tls"
+	"crypto/x509"
+	"crypto/x509/pkix"
 	"encoding/json"
+	"encoding/pem"
 	"fmt"
 	"io"
+	"math/big"
 	"net"
 	"net/http"
 	"net/textproto"
@@ -34,12 +42,18 @@ import (
 )
 
 // ExecAsm runs one assembled-system case in a child process (web.Router is a process global).
-func ExecAsm(in []string) []string {
+func ExecAsm(in []string) []string { return execAsm(in, "") }
+
+// ExecAsmTLS is ExecAsm on a listener that speaks TLS from the first byte (INBUCKET_SMTP_FORCETLS, certificate made at
+// run time); before the client of the case connects, one to three other peers connect and say nothing at all.
+func ExecAsmTLS(in []string) []string { return execAsm(in, "1") }
+
+func execAsm(in []string, tlsMode string) []string {
 	cmd := exec.Command(os.Args[0], "asmchild")
 	cmd.Stdin = strings.NewReader(strings.Join(in, " ") + "\n")
 	var out, errb bytes.Buffer
 	cmd.Stdout, cmd.Stderr = &out, &errb
-	cmd.Env = os.Environ()
+	cmd.Env = append(os.Environ(), "VERIF_ASM_TLS="+tlsMode)
 	done := make(chan error, 1)
 	if err := cmd.Start(); err != nil {
 		return []string{"SETUPERR", vh.HS(err.Error())}
@@ -76,8 +90,10 @@ type AsmSys struct {
 	Svc     *server.Services
 	Conf    *config.Root
 	WebAddr string
+	TLS     bool // the SMTP listener is a TLS listener
 	cancel  context.CancelFunc
 	dir     string
+	silent  []net.Conn
 }
 
 // AsmStart sets the environment an operator would set for c (everything else keeps its default), assembles and
@@ -119,6 +135,20 @@ func AsmStart(c Cfg) (*AsmSys, error) {
 	}
 	storage.Constructors["file"] = file.New
 	storage.Constructors["memory"] = mem.New
+	forceTLS := os.Getenv("VERIF_ASM_TLS") != ""
+	for _, k := range []string{"TLSENABLED", "FORCETLS", "TLSCERT", "TLSPRIVKEY"} {
+		os.Unsetenv("INBUCKET_SMTP_" + k)
+	}
+	if forceTLS {
+		cert, key, err := SelfSigned(dir)
+		if err != nil {
+			return nil, fmt.Errorf("certificate: %v", err)
+		}
+		os.Setenv("INBUCKET_SMTP_TLSENABLED", "true")
+		os.Setenv("INBUCKET_SMTP_FORCETLS", "true")
+		os.Setenv("INBUCKET_SMTP_TLSCERT", cert)
+		os.Setenv("INBUCKET_SMTP_TLSPRIVKEY", key)
+	}
 	conf, err := config.Process()
 	if err != nil {
 		return nil, fmt.Errorf("config.Process: %v", err)
@@ -139,7 +169,7 @@ func AsmStart(c Cfg) (*AsmSys, error) {
 		cancel()
 		return nil, fmt.Errorf("services not ready")
 	}
-	a := &AsmSys{Svc: svc, Conf: conf, WebAddr: webAddr, cancel: cancel, dir: dir}
+	a := &AsmSys{Svc: svc, Conf: conf, WebAddr: webAddr, TLS: forceTLS, cancel: cancel, dir: dir}
 	// the web listener is started asynchronously: wait until it answers
 	for i := 0; i < 200; i++ {
 		if c, err := net.DialTimeout("tcp4", webAddr, time.Second); err == nil {
@@ -157,15 +187,71 @@ func (a *AsmSys) SMTP(stream []byte) ([]byte, error) {
 	if addr == nil {
 		return nil, fmt.Errorf("no SMTP address")
 	}
+	var conn net.Conn
 	conn, err := net.Dial("tcp4", addr.String())
 	if err != nil {
 		return nil, err
+	}
+	if a.TLS {
+		tc := tls.Client(conn, &tls.Config{InsecureSkipVerify: true})
+		conn.SetDeadline(time.Now().Add(4 * time.Second))
+		if err := tc.Handshake(); err != nil {
+			conn.Close()
+			return nil, fmt.Errorf("TLS handshake: %v", err)
+		}
+		conn.SetDeadline(time.Time{})
+		conn = tc
 	}
 	go func() { conn.Write(stream) }()
 	conn.SetReadDeadline(time.Now().Add(60 * time.Second))
 	out, rerr := io.ReadAll(conn)
 	conn.Close()
 	return out, rerr
+}
+
+// SilentPeers opens n connections to the SMTP port that never send a byte; they stay open until Shutdown.
+func (a *AsmSys) SilentPeers(n int) error {
+	addr := a.Svc.SMTPServer.VerifAddr()
+	if addr == nil {
+		return fmt.Errorf("no SMTP address")
+	}
+	for i := 0; i < n; i++ {
+		c, err := net.Dial("tcp4", addr.String())
+		if err != nil {
+			return err
+		}
+		a.silent = append(a.silent, c)
+	}
+	time.Sleep(30 * time.Millisecond) // let the accept loop see them first
+	return nil
+}
+
+// SelfSigned writes a fresh self-signed certificate and key as PEM files.
+func SelfSigned(dir string) (certFile, keyFile string, err error) {
+	key, err := ecdsa.GenerateKey(elliptic.P256(), rand.Reader)
+	if err != nil {
+		return "", "", err
+	}
+	tmpl := &x509.Certificate{
+		SerialNumber: big.NewInt(1), Subject: pkix.Name{CommonName: "localhost"},
+		NotBefore: time.Now().Add(-time.Hour), NotAfter: time.Now().Add(24 * time.Hour),
+		KeyUsage: x509.KeyUsageDigitalSignature, ExtKeyUsage: []x509.ExtKeyUsage{x509.ExtKeyUsageServerAuth},
+		IPAddresses: []net.IP{net.ParseIP("127.0.0.1")},
+	}
+	der, err := x509.CreateCertificate(rand.Reader, tmpl, tmpl, &key.PublicKey, key)
+	if err != nil {
+		return "", "", err
+	}
+	kb, err := x509.MarshalECPrivateKey(key)
+	if err != nil {
+		return "", "", err
+	}
+	certFile, keyFile = dir+"/cert.pem", dir+"/key.pem"
+	if err = os.WriteFile(certFile, pem.EncodeToMemory(&pem.Block{Type: "CERTIFICATE", Bytes: der}), 0o600); err != nil {
+		return "", "", err
+	}
+	err = os.WriteFile(keyFile, pem.EncodeToMemory(&pem.Block{Type: "EC PRIVATE KEY", Bytes: kb}), 0o600)
+	return certFile, keyFile, err
 }
 
 // Get fetches a path through the real HTTP listener with Go's default client (which offers gzip and
@@ -198,6 +284,9 @@ func (a *AsmSys) GetIdentity(path string) (int, []byte) {
 
 // Shutdown does what main() does after the signal and reports whether it all returned.
 func (a *AsmSys) Shutdown() bool {
+	for _, c := range a.silent {
+		c.Close()
+	}
 	a.cancel()
 	drained := make(chan struct{})
 	go func() {
@@ -231,10 +320,18 @@ func AsmChild() {
 		fail("assembly", err)
 	}
 	conf := sys.Conf
+	if sys.TLS {
+		if err := sys.SilentPeers(1 + len(stream)%3); err != nil {
+			fail("silent peers", err)
+		}
+	}
 	out, rerr := sys.SMTP(stream)
 	status := "ok"
 	if rerr != nil {
 		status = "err:" + vh.HS(rerr.Error())
+		if sys.TLS && strings.HasPrefix(rerr.Error(), "TLS handshake") {
+			status = "wedged-behind-silent-peers:" + vh.HS(rerr.Error())
+		}
 	}
 	// facts (the same oracles as the in-process stream)
 	env := &Env{Conf: conf, Policy: &policy.Addressing{Config: conf}}
